@@ -20,7 +20,7 @@ GLYPHS = "│├└─ "
 def materialize(ws, root):
     shutil.rmtree(root, ignore_errors=True)
     for p, pf in ws.files.items():
-        if "site-packages" in p or p.startswith("plug/"):
+        if ("site-packages" in p or p.startswith("plug/")) and not ws.meta.get("keep_venv"):
             continue
         full = os.path.join(root, p)
         os.makedirs(os.path.dirname(full), exist_ok=True)
@@ -98,7 +98,32 @@ def fixed_workspaces():
         ws.order = list(ws.files)
         ws.meta = {"fixed": "plain request %s the self-requesting override" % ("above" if above else "below")}
         out.append(ws)
+    # a virtualenv inside the workspace with an installed plugin whose fixture requests a name the PROJECT defines
+    # (pytest-flask's client(app)): that request is a usage like any other - it counts for the project's definition,
+    # once alone and once next to a project test requesting the same name (seed C20-j)
+    sp = ".venv/lib/python3.12/site-packages"
+    for also_project in (False, True):
+        ws = wsgen.WS()
+        c0 = PyFile(); c0.fixture("app"); c0.fixture("spare"); c0.fixture("plain"); ws.add("conftest.py", c0)
+        t = PyFile(); t.test("test_c", params=("client", "plain") + (("app",) if also_project else ())); ws.add("test_c.py", t)
+        pl = PyFile(); pl.fixture("client", params=("app",)); pl.fixture("lonely"); ws.add(sp + "/tp/plugin.py", pl)
+        ws.add(sp + "/tp/__init__.py", Raw(""))
+        ws.add(sp + "/tp-0.1.dist-info/entry_points.txt", Raw("[pytest11]\ntp = tp.plugin\n"))
+        ws.order = list(ws.files)
+        ws.meta = {"fixed": "installed plugin fixture requests a project fixture" + (" that a test requests too" if also_project else ""),
+                   "keep_venv": True}
+        out.append(ws)
     return out
+
+
+class Raw:
+    """a file given by its text (package markers, dist-info metadata)"""
+    def __init__(self, t):
+        self._t = t
+        self.defs = []
+
+    def text(self):
+        return self._t
 
 
 def run(tier, seed):
@@ -114,7 +139,8 @@ def run(tier, seed):
     for i in range(n):
         ws = fixed[i] if i < len(fixed) else wsgen.gen_workspace(r.rng)
         # keep only what the workspace scan can see (the venv / plugin mechanics are C14's)
-        ws.files = {p: pf for p, pf in ws.files.items() if "site-packages" not in p and not p.startswith("plug/")}
+        if not ws.meta.get("keep_venv"):
+            ws.files = {p: pf for p, pf in ws.files.items() if "site-packages" not in p and not p.startswith("plug/")}
         ws.plugin = []
         ws.order = [p for p in ws.order if p in ws.files]
         name = "w%d" % i
@@ -125,7 +151,10 @@ def run(tier, seed):
         tids = {}
         for j, (p, pf) in enumerate(ws.files.items()):
             tids[p] = "t%d" % j
-            cases.text(tids[p], pf.text())
+            if p.endswith(".py"):
+                cases.text(tids[p], pf.text())
+            else:
+                cases.text(tids[p], pf.text(), with_ast=False)
             cases.raw("disk %s %s" % (p, tids[p]))
         cases.op("scan")
         cases.q("unused")
@@ -212,7 +241,10 @@ def run(tier, seed):
             fail(f"--skip-unused and --only-unused do not partition the fixtures: both={sorted(ks & ko)} missing={sorted(set(full) - ks - ko)}")
         if full and json_entries:
             r.nontrivial.add((tuple(sorted(full.items())),))
-        unused_from_list = sorted(k for k, lab in full.items() if label_count(lab) == 0 and "autouse" not in lab)
+        # (`fixtures unused` is about PROJECT fixtures: an installed plugin's fixture nobody requests is printed as unused
+        # by `fixtures list` and rightly absent from `fixtures unused`)
+        unused_from_list = sorted(k for k, lab in full.items() if label_count(lab) == 0 and "autouse" not in lab
+                                  and "site-packages" not in k[0])
         # keys under which one file defines the name twice share one label / one counter (finding E2)
         from collections import Counter as _C
         dupkeys = {k for k, n_ in _C((p, nm) for (p, pf) in ws.files.items() for (nm, _) in pf.defs).items() if n_ > 1}
